@@ -794,3 +794,16 @@ pub fn self_test() -> Result<(), String> {
     }
     Ok(())
 }
+
+
+/// `Duration::total_nanoseconds()` as the open finding KF-total-ns-sign computes it from the two fields
+/// (`centuries * NPC - nanoseconds` when the century field is <= -2). Used only by the known-finding gates:
+/// a failing case is attributed to that finding only if the library's answer is exactly what the finding predicts.
+pub fn kf_total_ns(d: hifitime::Duration) -> i128 {
+    let (c, n) = d.to_parts();
+    if c <= -2 {
+        c as i128 * NPC - n as i128
+    } else {
+        c as i128 * NPC + n as i128
+    }
+}
